@@ -498,9 +498,13 @@ func startWithListenerFds(cdyfile Input, inst *Instance, restartFds map[string]r
 	instancesMu.Lock()
 	instances = append(instances, inst)
 	instancesMu.Unlock()
+	// likewise, event hooks that the directives of this configuration
+	// register must not outlive a failed attempt to start it
+	hooksBefore := cloneEventHooks()
 	var err error
 	defer func() {
 		if err != nil {
+			removeEventHooksNotIn(hooksBefore)
 			instancesMu.Lock()
 			for i, otherInst := range instances {
 				if otherInst == inst {
@@ -583,11 +587,19 @@ func startWithListenerFds(cdyfile Input, inst *Instance, restartFds map[string]r
 // the resulting server blocks into inst. If justValidate is true, parse
 // callbacks will not be executed between directives, since the purpose
 // is only to check the input for valid syntax.
-func ValidateAndExecuteDirectives(cdyfile Input, inst *Instance, justValidate bool) error {
+func ValidateAndExecuteDirectives(cdyfile Input, inst *Instance, justValidate bool) (err error) {
 	// If parsing only inst will be nil, create an instance for this function call only.
 	if justValidate {
 		inst = &Instance{serverType: cdyfile.ServerType(), wg: new(sync.WaitGroup), Storage: make(map[interface{}]interface{})}
 	}
+
+	// a configuration that does not pass leaves no event hooks behind
+	hooksBefore := cloneEventHooks()
+	defer func() {
+		if err != nil {
+			removeEventHooksNotIn(hooksBefore)
+		}
+	}()
 
 	stypeName := cdyfile.ServerType()
 
